@@ -276,4 +276,125 @@ def run (st : TH) (sched : List Step) : TH := sched.foldl step st
 /-- `ThreadedHistory.get_strings()` -/
 def TH.getStrings (st : TH) : List Text := st.strs.reverse
 
+/-! ## ThreadedHistory with several simultaneous `load()` calls
+
+  Same step granularity, no `append_string`; the loader additionally stops after every single
+  `event.set()`.  `copy` says whether the loader's `for event in …` loops run over a copy of
+  `_string_load_events` (generated from the source: `Gen.C13.notifyCopies`) or over the live
+  list — a Python list iterator is an index into the live list, so an element removed in front
+  of the index makes it skip one. -/
+
+/-- one `load()` call -/
+structure Cons where
+  cpc : CPc := .idle
+  ev : Bool := false
+  yielded : Nat := 0
+  out : List Text := []
+  batch : List Text := []
+  sawDone : Bool := false
+deriving Repr, DecidableEq
+
+inductive NPc
+  | notStarted | started | called | iter
+  | notify              -- item appended; next: start the `for event in …` loop
+  | looping             -- inside that loop, after an `event.set()`
+  | notifyFinal         -- `_loaded = True`; next: start the final loop
+  | loopingFinal
+  | finished
+deriving Repr, DecidableEq
+
+structure THn where
+  storage : List Text
+  strs : List Text
+  loaded : Bool
+  lpc : NPc
+  remaining : List Text
+  cons : Nat → Cons
+  events : List Nat         -- `_string_load_events`: the registered `load()` calls, in order
+  nidx : Nat                -- index of the live-list iterator (`copy = false`)
+  ncopy : List Nat          -- rest of the copied list (`copy = true`)
+
+inductive StepN
+  | cstart (i : Nat) | cwait (i : Nat) | cread (i : Nat) | cyield (i : Nat)
+  | lreset | lsnap | lappend | lnotify | lset | ldone | lfinal
+deriving Repr, DecidableEq
+
+def THn.init (old pre : List Text) : THn :=
+  { storage := old ++ pre, strs := pre.reverse, loaded := false, lpc := .notStarted,
+    remaining := [], cons := fun _ => {}, events := [], nidx := 0, ncopy := [] }
+
+def THn.setCons (st : THn) (i : Nat) (c : Cons) : THn :=
+  { st with cons := fun j => if j = i then c else st.cons j }
+
+/-- `event.set()` on the event of `load()` call `i` -/
+def THn.setEv (st : THn) (i : Nat) : THn := st.setCons i { st.cons i with ev := true }
+
+/-- the loader enters a `for event in …: event.set()` loop: sets the first event (if any) and
+    stops after it; with no events the loop is over at once (`after` = where it continues) -/
+def loopStart (copy : Bool) (st : THn) (inLoop after : NPc) : THn :=
+  match st.events with
+  | [] => { st with lpc := after }
+  | e :: r =>
+    if copy then { st.setEv e with lpc := inLoop, ncopy := r }
+    else { st.setEv e with lpc := inLoop, nidx := 1 }
+
+/-- the next iteration of the loop: one more `event.set()`, or the loop ends -/
+def loopNext (copy : Bool) (st : THn) (after : NPc) : THn :=
+  if copy then
+    match st.ncopy with
+    | [] => { st with lpc := after }
+    | e :: r => { st.setEv e with ncopy := r }
+  else
+    match st.events[st.nidx]? with
+    | none => { st with lpc := after }
+    | some e => { st.setEv e with nidx := st.nidx + 1 }
+
+def stepN (copy : Bool) (st : THn) : StepN → THn
+  | .cstart i =>
+    if (st.cons i).cpc = .idle then
+      { st with lpc := if st.lpc = .notStarted then .started else st.lpc,
+                cons := fun j => if j = i then { cpc := .waiting, ev := true } else st.cons j,
+                events := st.events ++ [i] }
+    else st
+  | .cwait i =>
+    let c := st.cons i
+    if c.cpc = .waiting ∧ c.ev then st.setCons i { c with cpc := .reading } else st
+  | .cread i =>
+    let c := st.cons i
+    if c.cpc = .reading then
+      st.setCons i { c with ev := false, batch := st.strs.drop c.yielded, sawDone := st.loaded,
+                            cpc := .yielding }
+    else st
+  | .cyield i =>
+    let c := st.cons i
+    if c.cpc = .yielding then
+      let c' := { c with yielded := c.yielded + c.batch.length, out := c.out ++ c.batch, batch := [],
+                         cpc := if c.sawDone then .done else .waiting }
+      -- `finally: self._string_load_events.remove(event)` when the generator finishes
+      { st.setCons i c' with events := if c.sawDone then st.events.erase i else st.events }
+    else st
+  | .lreset =>
+    if st.lpc = .started then { st with strs := [], lpc := .called } else st
+  | .lsnap =>
+    if st.lpc = .called then { st with remaining := st.storage.reverse, lpc := .iter } else st
+  | .lappend =>
+    if st.lpc = .iter then
+      match st.remaining with
+      | x :: r => { st with strs := st.strs ++ [x], remaining := r, lpc := .notify }
+      | [] => st
+    else st
+  | .lnotify =>
+    if st.lpc = .notify then loopStart copy st .looping .iter else st
+  | .ldone =>
+    if st.lpc = .iter ∧ st.remaining = [] then { st with loaded := true, lpc := .notifyFinal }
+    else st
+  | .lfinal =>
+    if st.lpc = .notifyFinal then loopStart copy st .loopingFinal .finished else st
+  | .lset =>
+    if st.lpc = .looping then loopNext copy st .iter
+    else if st.lpc = .loopingFinal then loopNext copy st .finished
+    else st
+
+def runN (copy : Bool) (st : THn) (sched : List StepN) : THn := sched.foldl (stepN copy) st
+
 end Ptk.C13
